@@ -3,7 +3,7 @@
    field tables: Gen/C11_Rinex{2,3}ObsFields.v (regenerated from the source on every run). *)
 From Coq Require Import Ascii String List Bool ZArith QArith Arith Lia.
 From Verif Require Import Lib.Text Lib.Decimal Lib.Fixed Model.C11_Rinex Model.C11_Check Spec.C11_RinexFormat Spec.C11_RinexFile
-     Proofs.C11_Rinex Proofs.C11_File3 Proofs.C11_Hdr3 Proofs.C11_Hdr2 Proofs.C11_File2 Proofs.C11_Body2.
+     Proofs.C11_Rinex Proofs.C11_File3 Proofs.C11_Hdr3 Proofs.C11_Hdr2 Proofs.C11_File2 Proofs.C11_Body2 Proofs.C11_Final3.
 Import ListNotations.
 Local Open Scope nat_scope.
 Local Open Scope string_scope.
@@ -242,6 +242,7 @@ Definition ex_t (s7 : Z) (clk : option Z) : epoch_t :=
 Definition ex_file3 : file3 :=
   {| f3_marker := "TRDS";
      f3_systypes := [("G", ["C1C"; "L1C"]); ("E", ex_types_E)];
+     f3_first := ex_t 300000000 None;
      f3_epochs :=
        [ {| e3_t := ex_t 300000000 (Some (-123456789012)%Z);
             e3_sats := [ {| s3_id := "G01"; s3_cells := [num 23629347915; blankcell]; s3_cut := true |};
